@@ -173,6 +173,8 @@ def run_verus_unit(prop, unit, workdir, out, tier, known):
         if f['id'] in serving and not f['canary'] and not f.get('known') and not f.get('lemma'):
             out.functions.append({'unit': unit, 'fn': f['source_fn'], 'file': f['file'], 'line': f['line'],
                                   'sha256': f['sha256'], 'contract_clauses': f['clauses'], 'backend': 'verus'})
+    hint_only = []
+    nviol0 = len(out.violations) + len(out.known)
     for fl in res['failures']:
         if fl['canary']:
             continue
@@ -192,6 +194,10 @@ def run_verus_unit(prop, unit, workdir, out, tier, known):
         if unc:
             out.undecided.append('%s: %s calls helper(s) %s that are new in /repo and have no contract: cannot decide (%s)' % (unit, reg, unc, fl['message']))
             continue
+        if reg in meta.get('degraded_fns', []) and re.search(r'invariant not satisfied|decreases not satisfied|could not prove termination|loop must have a decreases', fl['message']):
+            # the loop annotations of this function were dropped with their anchors: obligations that exist only for them decide nothing
+            hint_only.append('%s/%s: %s' % (unit, reg, fl['message']))
+            continue
         clause = re.sub(r'\s+', ' ', fl['clause'])[:160]
         name = '%s/%s/%s [%s]' % (unit, reg, fl['message'], clause)
         sites = ' | '.join('%s: %s' % (l[0], l[1]) for l in fl['labels'] if l[1])
@@ -206,6 +212,8 @@ def run_verus_unit(prop, unit, workdir, out, tier, known):
             out.known.append(v)
         else:
             out.violations.append(v)
+    if hint_only and len(out.violations) + len(out.known) == nviol0:
+        out.undecided.append('%s: restructured function(s) whose loop annotations no longer apply; only loop-annotation obligations failed: %s' % (unit, '; '.join(hint_only)[:600]))
     if tier == 'thorough':
         # (a) vacuity: every function under contract must be able to reach its body under its precondition
         try:
